@@ -147,7 +147,8 @@ static qtreetbl_obj_t *new_obj(bool red, const void *name, size_t namesize,
                                const void *data, size_t datasize);
 static qtreetbl_obj_t *put_obj(qtreetbl_t *tbl, qtreetbl_obj_t *obj,
                                const void *name, size_t namesize,
-                               const void *data, size_t datasize);
+                               qtreetbl_obj_t *newobj, void *copydata,
+                               size_t datasize);
 static qtreetbl_obj_t *remove_obj(qtreetbl_t *tbl, qtreetbl_obj_t *obj,
                                   const void *name, size_t namesize);
 static void free_objs(qtreetbl_obj_t *obj);
@@ -341,13 +342,30 @@ bool qtreetbl_putobj(qtreetbl_t *tbl, const void *name, size_t namesize,
     }
 
     qtreetbl_lock(tbl);
-    errno = 0;
-    qtreetbl_obj_t *root = put_obj(tbl, tbl->root, name, namesize, data,
-                                   datasize);
-    if (root == NULL || errno == ENOMEM) {
-        qtreetbl_unlock(tbl);
-        return false;
+
+    // Make every copy the insertion needs before the tree is touched, so that
+    // a failed allocation leaves the table exactly as it was.
+    qtreetbl_obj_t *newobj = NULL;
+    void *copydata = NULL;
+    if (find_obj(tbl, name, namesize) == NULL) {
+        newobj = new_obj(true, name, namesize, data, datasize);
+        if (newobj == NULL) {
+            qtreetbl_unlock(tbl);
+            errno = ENOMEM;
+            return false;
+        }
+    } else {
+        copydata = qmemdup(data, datasize);
+        if (copydata == NULL && data != NULL && datasize > 0) {
+            qtreetbl_unlock(tbl);
+            errno = ENOMEM;
+            return false;
+        }
     }
+
+    errno = 0;
+    qtreetbl_obj_t *root = put_obj(tbl, tbl->root, name, namesize, newobj,
+                                   copydata, datasize);
     root->red = false;
     tbl->root = root;
     qtreetbl_unlock(tbl);
@@ -1171,7 +1189,8 @@ static qtreetbl_obj_t *new_obj(bool red, const void *name, size_t namesize,
     void *copyname = qmemdup(name, namesize);
     void *copydata = qmemdup(data, datasize);
 
-    if (obj == NULL || copyname == NULL) {
+    if (obj == NULL || copyname == NULL
+        || (copydata == NULL && data != NULL && datasize > 0)) {
         errno = ENOMEM;
         free(obj);
         free(copyname);
@@ -1190,10 +1209,13 @@ static qtreetbl_obj_t *new_obj(bool red, const void *name, size_t namesize,
 
 static qtreetbl_obj_t *put_obj(qtreetbl_t *tbl, qtreetbl_obj_t *obj,
                                const void *name, size_t namesize,
-                               const void *data, size_t datasize) {
+                               qtreetbl_obj_t *newobj, void *copydata,
+                               size_t datasize) {
+    // newobj (for a new key) or copydata (new value of an existing key) were
+    // allocated by the caller; nothing can fail from here on.
     if (obj == NULL) {
         tbl->num++;
-        return new_obj(true, name, namesize, data, datasize);
+        return newobj;
     }
 
 #ifdef LLRB234
@@ -1205,16 +1227,17 @@ static qtreetbl_obj_t *put_obj(qtreetbl_t *tbl, qtreetbl_obj_t *obj,
 
     int cmp = tbl->compare(name, namesize, obj->name, obj->namesize);
     if (cmp == 0) {  // existing key found
-        void *copydata = qmemdup(data, datasize);
         if (copydata != NULL || datasize == 0) {
             free(obj->data);
             obj->data = copydata;
             obj->datasize = datasize;
         }
     } else if (cmp < 0) {
-        obj->left = put_obj(tbl, obj->left, name, namesize, data, datasize);
+        obj->left = put_obj(tbl, obj->left, name, namesize, newobj, copydata,
+                            datasize);
     } else {
-        obj->right = put_obj(tbl, obj->right, name, namesize, data, datasize);
+        obj->right = put_obj(tbl, obj->right, name, namesize, newobj,
+                             copydata, datasize);
     }
 
     // fix right-leaning reds on the way up
